@@ -153,6 +153,9 @@ type dRun struct {
 	sameID        string // consecutive deliveries of one id (livelock detection)
 	sameN         int
 	Livelock      string // set when the wrapped writer was offered the same message >= 2000 times in a row
+	ProducerSpin  string // set when a producer reports >= 1000 collisions for one and the same claimed position
+	spinArg       map[int64]uint64
+	spinN         map[int64]int
 	StallState    string // "", "parked", "polling", "inconclusive"
 	StallDump     string
 	Quiesced      bool
@@ -214,6 +217,20 @@ func (r *dRun) at(point string, arg uint64) {
 		r.nClaimed++
 		if int64(arg) > r.maxClaimed {
 			r.maxClaimed = int64(arg)
+		}
+	case "m2o.set.collision":
+		// a correct producer claims a NEW position after a collision; one that keeps colliding on the same
+		// position is spinning (it can only be freed by the consumer)
+		if r.spinArg == nil {
+			r.spinArg, r.spinN = map[int64]uint64{}, map[int64]int{}
+		}
+		if r.spinArg[g] == arg {
+			r.spinN[g]++
+			if r.spinN[g] == 1000 && r.ProducerSpin == "" {
+				r.ProducerSpin = fmt.Sprintf("a producer collided 1000 times in a row on ring position %d without claiming a new one", arg)
+			}
+		} else {
+			r.spinArg[g], r.spinN[g] = arg, 1
 		}
 	case "m2o.next.enter":
 		r.readIndex = arg
@@ -543,9 +560,21 @@ func runDiode(cfg *dCfg, seed *rng.R) *dRun {
 		// join producers; a producer that cannot return is judged by goroutine state, not by the clock
 		done := make(chan struct{})
 		go func() { wg.Wait(); close(done) }()
-		select {
-		case <-done:
-		case <-time.After(3 * time.Second):
+		joined := false
+		for waited := 0; waited < 300 && !joined; waited++ {
+			select {
+			case <-done:
+				joined = true
+			case <-time.After(10 * time.Millisecond):
+				r.mu.Lock()
+				spin := r.ProducerSpin
+				r.mu.Unlock()
+				if spin != "" {
+					waited = 300
+				}
+			}
+		}
+		if !joined {
 			hung := ""
 			for _, g := range gstate.Snapshot() {
 				if g.Has("main.(*dRun).write") {
